@@ -52,6 +52,9 @@ def tick_path(rng, n, center, kind, anchors=(), step=30):
                 t += rng.randint(-step, step)
         else:
             raise ValueError(kind)
+        # a walk of many thousand bars stays within a factor ~400 of where it started (prices of 1e29 are beyond what
+        # 35-digit arithmetic can quantise to 1e-4, which is not any property's subject)
+        t = max(center - 60000, min(center + 60000, t))
         t = max(MIN_TICK + 10, min(MAX_TICK - 10, t))
         out.append(t)
     return out
